@@ -69,16 +69,20 @@ var concSources = []string{
 	`find all '\x63' '\x64' or "\x7a\x7A" or '\x20'`,
 	`find all caseless 'résumé' or caseless 'É'`,
 	`find all caseless 'AB' (any = v) maybe caseless 'é'`,
+	// regex literals inside the command of `set .. to matches`
+	`set m to matches find all @/(a)(b)\2\1/ find all @/(c)\1/`,
+	`set m to matches replace all @/(a)(b)?(c)?/ with 'x' find all @/(a)(b)/`,
 	// linear on the long text (the last of concTexts): loops of hundreds of iterations
 	`find all at least 1 'a' 'b'`,
 	`find all at least 1 ('a' = v) named L 'b'`,
 }
 
 // the last two sources are the only ones run on the long text (the others are
-// quadratic or worse on 270 equal letters)
+// quadratic or worse on 260 equal letters); one operation in forty uses it: a run on it
+// costs as much as hundreds of the others under the race detector
 const concLongSources = 2
 
-var concTexts = []string{"abba abab c abcd abbc", "aabbc ac bcb abcc", "a1b22 xyzzyx qq", "", "ababababababababababab aaaaaaaaaaaaaaaaaaaaaaaaaaaaaa 01234567890123456789", "Résumé résumé RÉSUMÉ É é abAB cd12 zZ", strings.Repeat("a", 270) + "b"}
+var concTexts = []string{"abba abab c abcd abbc", "aabbc ac bcb abcc", "a1b22 xyzzyx qq", "", "ababababababababababab aaaaaaaaaaaaaaaaaaaaaaaaaaaaaa 01234567890123456789", "Résumé résumé RÉSUMÉ É é abAB cd12 zZ", strings.Repeat("a", 260) + "b"}
 
 type concResult struct {
 	err  string
@@ -188,9 +192,9 @@ func TestC19(t *testing.T) {
 	rapid.Check(t, func(t *rapid.T) {
 		c := ConcCase{Sources: concSources, Texts: concTexts, Reps: envInt("VERIF_C19_REPS", 20)}
 		ng := rapid.IntRange(2, 16).Draw(t, "goroutines")
-		// a quarter of the job sets are compile storms: every goroutine compiles sources
+		// a sixth of the job sets are compile storms: every goroutine compiles sources
 		// with regex literals only, so that literals of different programs interleave
-		storm := rapid.IntRange(0, 3).Draw(t, "storm") == 0
+		storm := rapid.IntRange(0, 5).Draw(t, "storm") == 0
 		var regexSources []int
 		for i, src := range concSources {
 			if strings.Contains(src, "@/") {
@@ -208,7 +212,7 @@ func TestC19(t *testing.T) {
 			ranProg := map[int]bool{}
 			for i := rapid.IntRange(1, 6).Draw(t, "nops"); i > 0; i-- {
 				op := ConcOp{Src: rapid.IntRange(0, len(concSources)-1).Draw(t, "src"), Text: rapid.IntRange(0, len(concTexts)-2).Draw(t, "text")}
-				if rapid.IntRange(0, 5).Draw(t, "longtext") == 0 {
+				if rapid.IntRange(0, 39).Draw(t, "longtext") == 0 {
 					op.Text = len(concTexts) - 1
 					op.Src = len(concSources) - 1 - rapid.IntRange(0, concLongSources-1).Draw(t, "longsrc")
 				}
